@@ -343,7 +343,7 @@ def build_schemas(T):
     add('@CLASS@_drop_disjunct', r'ppl_%s_drop_disjunct' % PS,
         'V: { {D}::iterator i = $0.begin(); std::advance(i, cif::iter_pos($o0, $o1)); i = $0.drop_disjunct(i);'
         ' t.out[2].z = (size_t) std::distance($0.begin(), i); }',
-        post='(size_t) cif::iter_pos($o0, $o2) == t.out[2].z ? 0 : "returned iterator at a different position"',
+        post='cif::post_pos(t, cif::iter_pos($o0, $o2), 2)',
         flags=('F_ITER_DEREF', 'F_ITER_LINKED'), skip_cmp=(1, 2))
     add('@CLASS@_drop_disjuncts', r'ppl_%s_drop_disjuncts' % PS,
         'V: { {D}::iterator i = $0.begin(), j = $0.begin(); std::advance(i, cif::iter_pos($o0, $o1));'
@@ -616,6 +616,7 @@ def main():
     ap.add_argument('--header', required=True)
     ap.add_argument('--instantiations', required=True)
     ap.add_argument('--outdir', required=True)
+    ap.add_argument('--defined', help='file with the symbols defined by the interface library')
     o = ap.parse_args()
     pp = preprocess(o.header)
     handle_types, enums, decls = parse_decls(pp)
@@ -623,6 +624,7 @@ def main():
     T = Types(handle_types, doms)
     schemas, Drx, TDrx = build_schemas(T)
     nproto = raw_proto_count(o.header)
+    defined = set(open(o.defined).read().split()) if o.defined else None
 
     fns = []
     unclassified = []
@@ -700,6 +702,7 @@ def main():
     group = collections.defaultdict(list)
     for f in fns:
         group[f.home].append(f)
+    undefined = []
     for tu in tus:
         L = ['// generated by tools/gen_ciface.py -- do not edit', '#include "cifgen.hh"', 'using namespace Parma_Polyhedra_Library;', 'namespace {']
         recs = []
@@ -711,7 +714,12 @@ def main():
                              ('cif::E_' + a.enum) if a.enum else '-1', a.name))
             L.append('const cif::ArgSpec A_%d[] = { %s };' % (idx, ', '.join(specs) if specs else '{cif::K_OTHER, 0, 0, -1, -1, ""}'))
             special_sig = f.ret != 'int' or any(a.kind == 'K_OTHER' for a in f.args)
-            if special_sig:
+            if defined is not None and f.name not in defined:
+                callname = '0'
+                f.flags.append('F_UNDEFINED')
+                f.twin = None
+                undefined.append(f.name)
+            elif special_sig:
                 callname = '0'
             else:
                 L.append('int C_%d(cif::Val* a) { (void) a; return %s(%s); }' % (idx, f.name, ', '.join(call_expr(a, k) for k, a in enumerate(f.args))))
@@ -762,6 +770,7 @@ def main():
          'with C++ twin: %d' % sum(1 for f in fns if f.twin), 'special drivers: %d' % sum(1 for f in fns if 'F_SPECIAL' in f.flags),
          'unclassified (tightness only): %d' % len(unclassified), '']
     R += ['unclassified: ' + n for n in unclassified]
+    R += ['declared but not defined in the interface library: ' + n for n in undefined]
     R += ['', 'functions per schema:'] + ['%5d %s' % (c, s) for s, c in sorted(by_schema.items())]
     write_if_changed(os.path.join(o.outdir, 'cifgen_report.txt'), '\n'.join(R) + '\n')
     sys.stderr.write('gen_ciface: %d prototypes, %d entry points, %d with twin, %d unclassified\n'
